@@ -35,7 +35,7 @@ MANDATORY = ["cumsum", "cumprod", "diff:backward", "diff:forward", "diff:centere
 
 
 def budget(tier):
-    return {"quick": dict(examples=1200, shards=1), "thorough": dict(examples=15000, shards=16)}[tier]
+    return {"quick": dict(examples=3000, shards=1), "thorough": dict(examples=15000, shards=16)}[tier]
 
 
 @st.composite
